@@ -17,6 +17,8 @@ REVIEWED = {
         'a chunk location always has at least one offset: every add_chunk of the crates passes one, strip drops a location whose offsets ran out (R-STRIP)',
     'R-UNTRUSTED|bitar::archive_reader::http_reader|Overflow(Add)|p0.offset,p0.size,->tmp':
         'offset + size of every descriptor is validated not to overflow when the archive is opened (try_init)',
+    'R-UNTRUSTED|bitar::archive_reader::http_reader|Overflow(Add)|next(var).offset,next(var).size,->tmp':
+        'the same sum with the pair taken from a loop over windows(2) instead of a closure parameter: offset + size of every descriptor is validated not to overflow when the archive is opened (try_init)',
     'R-UNTRUSTED|bitar::chunk_offset|Overflow(Add)|self.offset,self.size,->tmp':
         'offset + size of every descriptor is validated not to overflow when the archive is opened (try_init)',
     'R-UNTRUSTED|bitar::archive|Overflow(Add)|self.archive_offset,self.archive_size,->tmp':
